@@ -19,12 +19,17 @@ package cmd
 //@ func getFullMetadata trusted havocs
 //@ emits analysedSources()
 //@ mayemit intermediateBuilt, severityFiltered
+// assumed link between the validators and the emitters: metadata that comes out of a successful Run() has no void
+// method and no body/form mixture (receiver validator), and a configuration that passed ValidateStruct declares
+// each security scheme name once (validator tag unique=SecurityName)
+//@ ensures ready: implies(result1 == nil, swagtool.emittable(result0.Flat) && swagtool.uniqueSchemes(config.OpenAPIGeneratorConfig.SecuritySchemes))
 
 //@ func GetConfigAndMetadata props C20,C10,C14 havocs
 //@ mayemit validatedConfig, analysedSources, intermediateBuilt, severityFiltered
 //@ ensures order: implies(evcount(analysedSources) > old(evcount(analysedSources)), evcount(validatedConfig) > old(evcount(validatedConfig)) && evlast(validatedConfig, 0))
 //@ ensures failed: implies(evcount(analysedSources) == old(evcount(analysedSources)), result2 != nil)
 //@ ensures cfg: implies(result2 == nil, result0 != nil)
+//@ ensures ready: implies(result2 == nil, swagtool.emittable(result1.Flat) && swagtool.uniqueSchemes(result0.OpenAPIGeneratorConfig.SecuritySchemes))
 
 //@ func GenerateSpec props C20,C10,C08,C14 havocs
 //@ mayemit validatedConfig, analysedSources, validatedSpec, wroteFile, intermediateBuilt, severityFiltered
